@@ -853,6 +853,11 @@ func (x *fnExec) instr(fr *frame, st *State, instr ssa.Instruction) {
 		for _, s := range t.States {
 			if s.Dir == types.SendOnly {
 				x.countSend(st, x.val(fr, s.Chan).T)
+			} else {
+				// a receive case is an attempt to receive on that channel
+				cv := x.val(fr, s.Chan).T
+				ra := st.arr("X:recvs", BV(64))
+				st.setArr("X:recvs", Store(ra, cv, BVBin("bvadd", Select(ra, cv), BVU(1, 64))))
 			}
 		}
 		sv := freshVal("select", t.Type())
@@ -1162,6 +1167,9 @@ func (x *fnExec) unop(fr *frame, st *State, t *ssa.UnOp) {
 		fr.env[t] = x.load(st, v, t.Type())
 	case token.ARROW:
 		x.note("channel receive in %s: value unknown", funcKey(fr.fn))
+		// ghost: receive attempts per channel
+		ra := st.arr("X:recvs", BV(64))
+		st.setArr("X:recvs", Store(ra, v.T, BVBin("bvadd", Select(ra, v.T), BVU(1, 64))))
 		fr.env[t] = freshVal("recv", t.Type())
 	default:
 		panic("unop " + t.Op.String())
